@@ -9,7 +9,8 @@
      max_debit o    the deposit a bind/update/enable adds, the amount a transfer sends, else 0. *)
 From Coq Require Import List ZArith Bool.
 From SVC Require Import Base.AMap Base.Res Base.Dec Model.Types Model.Pricing
-  Model.Handlers Model.EndBlock Model.Step Proofs.Inv Proofs.StepSpecs_auth.
+  Model.Handlers Model.EndBlock Model.Step Proofs.Inv Proofs.StepSpecs_auth
+  Proofs.TraceLemmas Proofs.TraceSettle Proofs.GapC05.
 Import ListNotations.
 Open Scope Z_scope.
 
@@ -201,3 +202,57 @@ Theorem C05_step_debits : forall cfg s o a,
                \/ (In (height s, c) (expq s) /\ c_rep rc = true /\ c_freq rc = c_timeout rc))).
 Proof. exact StepSpecs_auth.C05_step_debits. Qed.
 Print Assumptions C05_step_debits.
+
+(* ------------------------------------------------------------------ *)
+(* gap closing (audit C05, facet 8) *)
+
+(* EndBlock lowers the balance of an ordinary account only for a batch it ISSUES in that block:
+   if the balance of a fell, the events the block appended (the log is newest first) contain a
+   debit EvDebit c a amt with 0 < amt, immediately followed (newer) by the issue events evs of
+   one batch n of context c and by that batch's EvBatchStart, where every event of evs is an
+   EvIssue (c, n, height s, i) p a f -- a request of this batch, of this block, charged to a --
+   their fees sum to amt, and there is at least one.
+   issue_of c n h cons e := exists i p f, e = EvIssue (c, n, h, i) p cons f
+   issue_fees evs        := sum of the fees of the EvIssue events of evs *)
+Theorem C05_endblock_debit_issued : forall cfg s dt a,
+  wf_cfg cfg -> Reach cfg s -> wf_op s (OEndBlock dt) ->
+  bal (end_block cfg s dt) (User a) < bal s (User a) ->
+  exists c amt n evs d1 d2,
+    log (end_block cfg s dt)
+      = d1 ++ (EvBatchStart c n (height s) (len evs) :: evs ++ [EvDebit c a amt]) ++ d2 ++ log s
+    /\ Forall (issue_of c n (height s) a) evs /\ issue_fees evs = amt
+    /\ 0 < amt /\ 0 < len evs.
+Proof. exact GapC05.endblock_debit_issued. Qed.
+Print Assumptions C05_endblock_debit_issued.
+
+(* the same for one run of the new-batch handler, in any state satisfying the invariant *)
+Theorem C05_new_one_debit_issued : forall cfg s c a,
+  Inv cfg s -> In (height s, c) (newq s) ->
+  bal (new_one cfg s c) (User a) < bal s (User a) ->
+  exists rc amt n evs,
+    get c (ctxs s) = Some rc /\ c_cons rc = a /\ c_super rc = false
+    /\ log (new_one cfg s c) = EvBatchStart c n (height s) (len evs) :: evs ++ EvDebit c a amt :: log s
+    /\ Forall (issue_of c n (height s) a) evs /\ issue_fees evs = amt
+    /\ 0 < amt /\ 0 < len evs /\ n = c_counter rc + 1.
+Proof. exact GapC05.new_one_debit_shape. Qed.
+Print Assumptions C05_new_one_debit_issued.
+
+(* the keeper API driven by the owning module, stated with its real scope (the Go keeper checks
+   the consumer only when the context carries a module name; wf_op excludes calls aimed at a
+   context without one): C05_auth_mod_* above hold for the model without this hypothesis, the
+   Go code matches them only under it *)
+Theorem C05_auth_mod_scoped : forall cfg s o c who s',
+  (exists provs thr cap timeout freq total, o = OModUpdate c who provs thr cap timeout freq total)
+  \/ o = OModPause c who \/ o = OModStart c who \/ o = OModKill c who ->
+  wf_op s o -> handle cfg s o = Ok s' ->
+  exists rc, get c (ctxs s) = Some rc /\ c_mod rc <> 0 /\ c_cons rc = who.
+Proof. exact GapC05.auth_mod_scoped. Qed.
+Print Assumptions C05_auth_mod_scoped.
+
+(* withdrawing (one provider, or "all my providers" with prov = 0) changes only earned-fee
+   records of providers owned by the signer *)
+Theorem C05_withdraw_touches_own : forall cfg s owner prov ok s' p,
+  Inv cfg s -> h_withdraw s owner prov ok = Ok s' ->
+  get p (earned s') <> get p (earned s) -> get p (owner_of s) = Some owner.
+Proof. exact GapC05.withdraw_touches_own. Qed.
+Print Assumptions C05_withdraw_touches_own.
